@@ -469,7 +469,7 @@ func vf16RunRound(r *verifkit.Run, idx int) {
 	thr := uint64(1024 << rng.IntN(2))
 	workers, bcount := 1+rng.IntN(3), 2+rng.IntN(4)
 	maxSize := uint64(24<<10) << rng.IntN(4) // small caches overflow: some puts bypass the cache
-	failP := []int32{0, 0, 150, 400}[rng.IntN(4)]
+	failP := []int32{0, 300, 600}[rng.IntN(3)]
 	x := &vf16Round{r: r, idx: idx, dir: dir, acked: map[oid.Address]int64{}, delCall: map[oid.Address]int64{},
 		blob: &vf16Blob{rng: rand.New(rand.NewPCG(rng.Uint64(), rng.Uint64()))},
 		wcOpts: []writecache.Option{writecache.WithFlushWorkersCount(workers), writecache.WithMaxFlushBatchThreshold(thr),
@@ -483,10 +483,10 @@ func vf16RunRound(r *verifkit.Run, idx int) {
 	nObj := 16 + rng.IntN(12)
 	for i := 0; i < nObj; i++ {
 		var pl int
-		switch rng.IntN(4) {
+		switch rng.IntN(6) {
 		case 0:
 			pl = int(thr) - 220 + rng.IntN(60) // marshalled size around the batch threshold
-		case 1, 2:
+		case 1, 2, 3, 4:
 			pl = 16 + rng.IntN(400)
 		default:
 			pl = int(thr)*2 + rng.IntN(int(thr))
@@ -516,7 +516,7 @@ func vf16RunRound(r *verifkit.Run, idx int) {
 					if crng.IntN(5) == 0 {
 						x.put(x.objs[i], cl)
 					}
-					pause(crng, 60)
+					pause(crng, 280) // spread over several flush ticks
 				}
 			})
 		}
@@ -524,16 +524,16 @@ func vf16RunRound(r *verifkit.Run, idx int) {
 		apis := []string{"Get", "GetBytes", "GetStream", "GetBytesWithMetadataLookup"}
 		for rd := 0; rd < 3; rd++ {
 			client(func(crng *rand.Rand, cl int) {
-				for i := 0; i < 70; i++ {
+				for i := 0; i < 110; i++ {
 					x.read(x.objs[crng.IntN(len(x.objs))], apis[crng.IntN(len(apis))], cl)
-					pause(crng, 25)
+					pause(crng, 40)
 				}
 			})
 		}
 		// deleter
 		client(func(crng *rand.Rand, cl int) {
 			for i := 0; i < 14; i++ {
-				pause(crng, 150)
+				pause(crng, 300)
 				// only objects whose cached put was acknowledged are deleted ("until the object
 				// is deleted"); deleting never-stored addresses is not part of this property
 				o := x.objs[crng.IntN(len(x.objs))]
@@ -548,26 +548,26 @@ func vf16RunRound(r *verifkit.Run, idx int) {
 		// explicit flushes
 		client(func(crng *rand.Rand, _ int) {
 			for i := 0; i < 2; i++ {
-				pause(crng, 1200)
+				pause(crng, 2200)
 				x.flush()
 			}
 		})
 		// mode switches
 		client(func(crng *rand.Rand, _ int) {
-			for i := 0; i < 3; i++ {
-				pause(crng, 700)
+			for i := 0; i < 2; i++ {
+				pause(crng, 1800)
 				m := []mode.Mode{mode.ReadOnly, mode.ReadOnly, mode.DegradedReadOnly}[crng.IntN(3)]
 				x.setMode(m)
-				pause(crng, 120)
+				pause(crng, 150)
 				x.setMode(mode.ReadWrite)
 			}
 		})
 		// blobstor fault windows
 		client(func(crng *rand.Rand, _ int) {
 			for i := 0; i < 3 && failP > 0; i++ {
-				pause(crng, 400)
+				pause(crng, 500)
 				x.blob.failPermille.Store(failP)
-				pause(crng, 400)
+				pause(crng, 900)
 				x.blob.failPermille.Store(0)
 			}
 		})
